@@ -6,10 +6,42 @@ regenerates the generated Lean tables, re-checks the Lean theorems and their axi
 model/implementation correspondence and the spec oracle on the implementation, searches for a
 concrete failing input when a tie breaks, and writes /verif/evidence/<id>.json.
 """
-import argparse, importlib, os, sys
+import argparse, importlib, os, sys, time
 
 sys.path.insert(0, os.path.dirname(os.path.abspath(__file__)))
 from vlib import core
+
+
+def intensify(mod, chk):
+    """Change-directed intensification (vlib/fingerprint.py): when source files this property is anchored in differ from
+    the tree the framework was validated against, and the run at the given seed found nothing, the quick tier goes on
+    with further seeds (same checks, same verdict logic) until something is found or the budget is used up."""
+    from vlib import fingerprint
+    if chk.tier != "quick" or os.environ.get("VERIF_NO_INTENSIFY"):
+        return
+    changed = fingerprint.changed_files()
+    if not changed or not fingerprint.concerns(chk.pid, changed):
+        return
+    budget = float(os.environ.get("VERIF_INTENSIFY_BUDGET_S", "420"))
+    first = time.time() - chk.t0
+    extra = []
+    info = {"changed_files": changed[:40], "extra_seeds": extra, "budget_s": budget}
+    chk.extra["change_directed"] = info
+    n = 0
+    while not chk.violations and n < 6 and (time.time() - chk.t0) + first * 1.1 < budget + first:
+        n += 1
+        seed = chk.seed * 7919 + 104729 * n
+        core.log(f"{chk.pid}: anchored files changed ({', '.join(changed[:4])}{' …' if len(changed) > 4 else ''}); extra seed {seed}")
+        sub = core.Check(chk.pid, chk.tier, seed, fresh=False)
+        try:
+            mod.run(sub)
+        except Exception as e:
+            sub.violation(f"check machinery failed: {e!r}", [f"machinery-error {e!r}"], nofail=True)
+        extra.append(seed)
+        chk.violations += sub.violations
+        for k, v in sub.known_hits.items():
+            chk.known_hits.setdefault(k, v)
+        chk.cov["evaluations"] += sub.cov.get("evaluations", 0)
 
 
 def main():
@@ -30,6 +62,11 @@ def main():
         import traceback
         traceback.print_exc()
         chk.violation(f"check machinery failed: {e!r}", [f"machinery-error {e!r}"], nofail=True)
+    try:
+        intensify(mod, chk)
+    except Exception as e:
+        import traceback
+        traceback.print_exc()
     rc = chk.finish(level=getattr(mod, "LEVEL", "proof"))
     try:
         if core._PRIVATE_DRIVER:
